@@ -29,7 +29,7 @@ ASSUMPTIONS = [
     'object keys do not look like the encoder\'s own type{...} tags; no NaN/Infinity floats; times are naive',
 ]
 BUDGET = {'quick': dict(examples=480, shards=8, seconds=75),
-          'thorough': dict(examples=16000, shards=16, seconds=1500)}
+          'thorough': dict(examples=16000, shards=16, seconds=1200)}
 
 TYPES = ['string', 'integer', 'number', 'boolean', 'date', 'time', 'datetime', 'duration', 'array', 'object', 'any']
 
@@ -80,6 +80,14 @@ def cases_(draw):
     ops = ['run']
     for _ in range(draw(st.integers(1, 7))):
         ops.append(draw(st.sampled_from(['run', 'run', 'run', 'run-process', ('delete', draw(st.integers(1, n_cp))), 'delete-all'])))
+    # a third of the histories follow a template: run, (run), delete one checkpoint / all, run, (delete another, run)
+    if gen.rare(draw, 350):
+        which = draw(st.permutations(list(range(1, n_cp + 1))))
+        ops = ['run'] + (['run'] if draw(st.booleans()) else []) + [('delete', which[0]), draw(st.sampled_from(['run', 'run-process']))]
+        if n_cp > 1 and draw(st.booleans()):
+            ops += [('delete', which[1]), 'run']
+        if draw(st.booleans()):
+            ops += ['delete-all', 'run']
     # prebuilt: every Flow object of the history is constructed up front (before any run / delete happens)
     return {'pkg': pkg, 'n_cp': n_cp, 'ops': ops, 'prebuilt': draw(st.integers(0, 3)) == 0}
 
@@ -149,6 +157,10 @@ def check(case, ctx):
             return fn
 
         class Src(FeedStep):
+            def process_datapackage(self, dp):
+                counts[-1] += 1            # the source's package phase ran (it must not, when resuming)
+                return super().process_datapackage(dp)
+
             def process_resources(self, resources):
                 yield from dataflows.DataStreamProcessor.process_resources(self, resources)
                 for t in copy.deepcopy(tables):
@@ -167,7 +179,7 @@ def check(case, ctx):
     if case.get('prebuilt'):
         for op in case['ops']:
             if isinstance(op, str) and op.startswith('run'):
-                cnt = [0] * (n_cp + 2)
+                cnt = [0] * (n_cp + 3)
                 cap = []
 
                 def mk_tap(cap):
@@ -198,7 +210,7 @@ def check(case, ctx):
             existing.discard(op[1])
             pending_delete = first is not None
             continue
-        counts = [0] * (n_cp + 2)
+        counts = [0] * (n_cp + 3)
         captured = []
         steps = build(counts)
         try:
@@ -227,7 +239,8 @@ def check(case, ctx):
                 raise Violation('resume-raises:%s' % type(rc).__name__, {'error': str(rc)[:300], 'existing': sorted(existing)})
             raise unexpected(e, 'run')
         resume = max(existing) if existing else 0
-        exp_counts = [total if resume == 0 else 0] + [total if j > resume else 0 for j in range(1, n_cp + 2)]
+        exp_counts = [total if resume == 0 else 0] + [total if j > resume else 0 for j in range(1, n_cp + 2)] + \
+            [1 if resume == 0 else 0]
         if counts != exp_counts:
             raise Violation('steps-executed', {'got': counts, 'expected': exp_counts, 'existing': sorted(existing)})
         for j in range(1, n_cp + 1):
